@@ -1901,6 +1901,10 @@ func (app *App) repairCascadeNode(node *mysql.Node, clusterState map[string]*nod
 	cnc := cascadeTopology[host]
 
 	if state.SlaveState == nil {
+		if cnc.StreamFrom == host {
+			app.logger.Error().Msgf("repair: cascade node %s is configured to stream from itself, doing nothing", host)
+			return
+		}
 		app.logger.Warn().Msgf("repair: current Slave/Replica Status is unknown. Blindly change master on %s to '%s'", host, cnc.StreamFrom)
 		err := app.performChangeMaster(host, cnc.StreamFrom)
 		if err != nil {
